@@ -395,10 +395,10 @@ class Body:
         return None
 
     # ---- provenance ---------------------------------------------------------------------
-    def orig_operand(self, op, _seen=None):
+    def orig_operand(self, op, _seen=None, live=None):
         k = op[0]
         if k in ('c', 'm'):
-            return self.orig_place(op[1], _seen)
+            return self.orig_place(op[1], _seen, live)
         if k == 'k':
             c = op[1]
             if 'fn' in c:
@@ -406,18 +406,18 @@ class Body:
             return frozenset([Origin('const', c.get('int', c.get('v', '?')), ())])
         return frozenset([Origin('local', -1, ())])
 
-    def orig_place(self, place, _seen=None):
+    def orig_place(self, place, _seen=None, live=None):
         local, proj = place
-        base = self.orig_local(local, _seen)
+        base = self.orig_local(local, _seen, live)
         path = [p for p in proj if p != '*']
         if not path:
             return base
         out = set()
         for o in base:
-            out |= self._project(o, path, _seen)
+            out |= self._project(o, path, _seen, live)
         return frozenset(out)
 
-    def _project(self, o, path, _seen):
+    def _project(self, o, path, _seen, live=None):
         """Apply field/downcast projections to an origin; look into aggregates."""
         cur = {o}
         for p in path:
@@ -432,7 +432,7 @@ class Body:
                     if c.path and vname is not None and c.path[0][1] != vname:
                         continue  # projecting a variant this aggregate does not have: infeasible
                     if idx < len(ops):
-                        nxt |= self.orig_operand(self.facts.operand(ops[idx]), _seen)
+                        nxt |= self.orig_operand(self.facts.operand(ops[idx]), _seen, live)
                         continue
                 if p[0] == 'd':
                     nxt.add(Origin(c.kind, c.key, c.path + (('d', p[1]),)))
@@ -443,8 +443,8 @@ class Body:
             cur = nxt
         return cur
 
-    def orig_local(self, l, _seen=None):
-        if l in self._orig_cache:
+    def orig_local(self, l, _seen=None, live=None):
+        if live is None and l in self._orig_cache:
             return self._orig_cache[l]
         if _seen is None:
             _seen = set()
@@ -452,6 +452,8 @@ class Body:
             return frozenset([Origin('local', l, ())])
         _seen = _seen | {l}
         defs = self.defs.get(l, [])
+        if live is not None:
+            defs = [d for d in defs if d[1] in live]
         out = set()
         if 1 <= l <= self.argc:
             out.add(Origin('arg', l, ()))
@@ -462,26 +464,30 @@ class Body:
                 _, bb, si, rv = d
                 k = rv['k']
                 if k == 'use':
-                    out |= self.orig_operand(self.facts.operand(rv['op']), _seen)
+                    out |= self.orig_operand(self.facts.operand(rv['op']), _seen, live)
                 elif k in ('ref', 'rawptr'):
-                    out |= self.orig_place(self.facts.place(rv['pl']), _seen)
+                    out |= self.orig_place(self.facts.place(rv['pl']), _seen, live)
                 elif k == 'cast':
-                    out |= self.orig_operand(self.facts.operand(rv['op']), _seen)
+                    out |= self.orig_operand(self.facts.operand(rv['op']), _seen, live)
                 elif k == 'aggr':
                     out.add(Origin('aggr', (bb, si), ()))
                 elif k == 'discr':
-                    out.add(Origin('discr', self.orig_place(self.facts.place(rv['pl']), _seen), ()))
+                    out.add(Origin('discr', self.orig_place(self.facts.place(rv['pl']), _seen, live), ()))
                 else:
                     out.add(Origin('op', (bb, si), ()))
             else:
                 _, bb, call = d
                 idx = IDENTITY_CALLS.get(call.qname)
+                acc = None if idx is not None else self.facts.accessor_summary(call)
                 if idx is not None and idx < len(call.args):
-                    out |= self.orig_operand(call.args[idx], _seen)
+                    out |= self.orig_operand(call.args[idx], _seen, live)
+                elif acc is not None and acc[0] < len(call.args):
+                    for o in self.orig_operand(call.args[acc[0]], _seen, live):
+                        out.add(Origin(o.kind, o.key, o.path + acc[1]))
                 else:
                     out.add(Origin('call', bb, ()))
         res = frozenset(out)
-        if len(_seen) == 1:
+        if len(_seen) == 1 and live is None:
             self._orig_cache[l] = res
         return res
 
@@ -530,7 +536,7 @@ class Body:
                     self._guards[(i, k)] = Guard(self, i, k, subj, v, listed)
         return self._guards
 
-    def _switch_subject(self, op):
+    def _switch_subject(self, op, live=None):
         """What a switch operand tests: ('enum', origins, type) | ('bool', origins, negated) | ('int', origins)."""
         if op[0] not in ('c', 'm'):
             return ('int', self.orig_operand(op), None)
@@ -546,7 +552,7 @@ class Body:
                 break
             rv = defs[0][3]
             if rv['k'] == 'discr':
-                return ('enum', self.orig_place(self.facts.place(rv['pl'])), strip_generics_ty(self.fix(rv.get('ty', ''))))
+                return ('enum', self.orig_place(self.facts.place(rv['pl']), None, live), strip_generics_ty(self.fix(rv.get('ty', ''))))
             if rv['k'] == 'un' and rv['uop'] == 'Not':
                 a = self.facts.operand(rv['a'])
                 if a[0] in ('c', 'm'):
@@ -563,8 +569,37 @@ class Body:
             break
         ty = self.local_ty(local) if not proj else ''
         if ty == 'bool':
-            return ('bool', self.orig_place((local, proj)), neg)
-        return ('int', self.orig_place((local, proj)), None)
+            return ('bool', self.orig_place((local, proj), None, live), neg)
+        return ('int', self.orig_place((local, proj), None, live), None)
+
+    def refine(self, base_avoid, start=0):
+        """Prune switch edges that are infeasible because the tested value is built, in every block
+        still reachable, from aggregates / constants that contradict the edge (a path-insensitive
+        constant propagation to a fixpoint). Returns (avoid predicate, reachable-set)."""
+        dead = set()
+        while True:
+            def avoid(n, dead=dead):
+                return base_avoid(n) or n in dead
+            seen = self.reach([start], avoid=avoid)
+            live = frozenset(n for n in seen if not isinstance(n, tuple))
+            new = set()
+            for bb in live:
+                t = self.blocks[bb]['term']
+                if t['k'] != 'switch':
+                    continue
+                subj = self._switch_subject(self.facts.operand(t['op']), live)
+                arms = self.succ[bb]
+                listed = [lab[2] for _, lab in arms if lab[2] != 'otherwise']
+                for k, (_, lab) in enumerate(arms):
+                    node = ('e', bb, k)
+                    if node in dead or base_avoid(node):
+                        continue
+                    g = Guard(self, bb, k, subj, lab[2], listed)
+                    if not g.feasible_by_constants():
+                        new.add(node)
+            if not new:
+                return avoid, seen
+            dead |= new
 
     # ---- dominance on the expanded graph -------------------------------------------------
     def edges_required_for(self, site, start=0):
@@ -620,6 +655,28 @@ class Guard:
         else:
             return None
         return (not t) if self.extra else t
+
+    def feasible_by_constants(self):
+        os_ = self.origins
+        if not os_:
+            return True
+        if self.kind == 'enum':
+            if all(o.kind == 'aggr' and not o.path for o in os_):
+                allowed = {self.body.blocks[o.key[0]]['stmts'][o.key[1]]['rv']['ak'].get('variant') for o in os_}
+                vs = self.variants()
+                return vs is None or bool(vs & allowed)
+            return True
+        if all(o.kind == 'const' and not o.path for o in os_):
+            try:
+                vals = {int(o.key) for o in os_}
+            except (TypeError, ValueError):
+                return True
+            if self.kind == 'bool' and self.extra:
+                vals = {1 - v for v in vals if v in (0, 1)} | {v for v in vals if v not in (0, 1)}
+            if self.value == 'otherwise':
+                return any(v not in self.listed for v in vals)
+            return self.value in vals
+        return True
 
     def subject_calls(self):
         return self.body.origin_calls(self.origins)
@@ -765,6 +822,27 @@ class Facts:
             tr = strip_generics(call.trait)
             return [x for x in self.bodies.values() if x.impl_trait == tr and x.name == call.name and x.kind == 'AssocFn']
         return []
+
+    def accessor_summary(self, call):
+        """A local function whose whole body is `&self.field` (or a copy of it) is a projection:
+        returns (argument index, path) or None."""
+        cb = self.callee_body(call)
+        if cb is None:
+            return None
+        if not hasattr(self, '_acc'):
+            self._acc = {}
+        if cb.id in self._acc:
+            return self._acc[cb.id]
+        res = None
+        normal = [i for i, b in enumerate(cb.blocks) if not b['cleanup']]
+        if len(normal) == 1 and cb.blocks[normal[0]]['term']['k'] == 'return' and not cb.calls:
+            os_ = cb.orig_local(0)
+            if len(os_) == 1:
+                o = next(iter(os_))
+                if o.kind == 'arg' and o.path and all(p[0] == 'f' for p in o.path):
+                    res = (o.key - 1, o.path)
+        self._acc[cb.id] = res
+        return res
 
     def stats(self):
         nb = len(self.bodies)
